@@ -29,6 +29,7 @@ func split(ctx context.Context, r io.Reader) (<-chan string, <-chan error) {
 				l := sc.Text()
 				if isRootBlockBeginning(l) {
 					if len(block) != 0 {
+						verifPoint("split.send")
 						select {
 						case <-ctx.Done():
 							return
@@ -41,9 +42,11 @@ func split(ctx context.Context, r io.Reader) (<-chan string, <-chan error) {
 			}
 		}
 		if err := sc.Err(); err != nil {
+			verifPoint("split.err")
 			errc <- err
 			return
 		}
+		verifPoint("split.last")
 		select {
 		case <-ctx.Done():
 			return
